@@ -596,6 +596,33 @@ def sort_pair_ok():
     for e in h.get_edges():
         out.append((tuple(sorted(e[0])), tuple(sorted(e[1]))))
     return out
+
+
+def role_mem():
+    from hypergraphx import DirectedHypergraph
+
+    h = DirectedHypergraph()
+    handled = {e[0] for e in h.get_edges()}
+    return [e for e in h.get_edges() if e[1] in handled]
+
+
+def role_mem_ok():
+    from hypergraphx import DirectedHypergraph
+
+    h = DirectedHypergraph()
+    handled = {e[0] for e in h.get_edges()}
+    return [e for e in h.get_edges() if e[0] in handled]
+
+
+def or_flag(keep_isolated_nodes=True, keep_nodes=None):
+    keep_isolated_nodes = keep_isolated_nodes or keep_nodes
+    return keep_isolated_nodes
+
+
+def or_flag_ok(keep_isolated_nodes=True, keep_nodes=None):
+    if keep_nodes is not None:
+        keep_isolated_nodes = keep_nodes
+    return keep_isolated_nodes
 '''
 
 _PROBE_EXPECT = {
@@ -655,6 +682,10 @@ _PROBE_EXPECT = {
     "arg_swap_ok": ("G-ARGSWAP", False),
     "sort_pair": ("K-SORTPAIR", True),
     "sort_pair_ok": ("K-SORTPAIR", False),
+    "role_mem": ("K-ROLEMEM", True),
+    "role_mem_ok": ("K-ROLEMEM", False),
+    "or_flag": ("G-ORFLAG", True),
+    "or_flag_ok": ("G-ORFLAG", False),
 }
 
 
@@ -666,7 +697,7 @@ def lint_pack_controls(repo: str) -> dict:
     from .effects import check_shared_literals
     from .report import Result
 
-    fns = {"G-STALE": L.check_stale_in_loop, "G-REUSE": L.check_iterator_reuse, "N-FANCYAUG": L.check_fancy_augassign, "G-GROUPBY": L.check_groupby_sorted, "E-SHARED": check_shared_literals, "G-LIVEITER": L.check_mutation_while_iterating, "E-DEFAULTARG": L.check_mutable_defaults, "G-KEYPROJ": L.check_key_projection, "K-OWNER": L.check_id_owner, "G-COUNTERADD": L.check_counter_arith, "G-ZEROBUCKET": L.check_zero_buckets, "G-LENVALID": L.check_len_validated_cache, "G-SHAPEGUESS": L.check_layout_guess, "K-LABELTYPE": L.check_label_type_dispatch, "G-ZIPALIGN": L.check_zip_alignment, "G-TRUTHY0": L.check_truthy_index, "G-PYTRAP": L.check_python_traps, "G-LOSSYKEY": L.check_lossy_keys, "G-TRISTATE": L.check_tristate_flag, "N-TRACEMUL": L.check_trace_of_elementwise, "G-REUSEDREC": L.check_reused_record, "G-LOOPLEAK": L.check_loop_leak, "G-ACCRESET": L.check_accumulator_reset, "G-ARGSWAP": L.check_swapped_arguments, "K-SORTPAIR": L.check_sorted_pair}
+    fns = {"G-STALE": L.check_stale_in_loop, "G-REUSE": L.check_iterator_reuse, "N-FANCYAUG": L.check_fancy_augassign, "G-GROUPBY": L.check_groupby_sorted, "E-SHARED": check_shared_literals, "G-LIVEITER": L.check_mutation_while_iterating, "E-DEFAULTARG": L.check_mutable_defaults, "G-KEYPROJ": L.check_key_projection, "K-OWNER": L.check_id_owner, "G-COUNTERADD": L.check_counter_arith, "G-ZEROBUCKET": L.check_zero_buckets, "G-LENVALID": L.check_len_validated_cache, "G-SHAPEGUESS": L.check_layout_guess, "K-LABELTYPE": L.check_label_type_dispatch, "G-ZIPALIGN": L.check_zip_alignment, "G-TRUTHY0": L.check_truthy_index, "G-PYTRAP": L.check_python_traps, "G-LOSSYKEY": L.check_lossy_keys, "G-TRISTATE": L.check_tristate_flag, "N-TRACEMUL": L.check_trace_of_elementwise, "G-REUSEDREC": L.check_reused_record, "G-LOOPLEAK": L.check_loop_leak, "G-ACCRESET": L.check_accumulator_reset, "G-ARGSWAP": L.check_swapped_arguments, "K-SORTPAIR": L.check_sorted_pair, "K-ROLEMEM": L.check_role_membership, "G-ORFLAG": L.check_or_merged_flag}
     ctx = Ctx(repo, "quick", overrides={_PROBE_REL: _PROBE_SRC})
     out = {"controls": [], "broken": []}
     for name, (rule, must) in _PROBE_EXPECT.items():
